@@ -17,7 +17,7 @@ RULE = ('for every game of families A and B (Streett and Rabin, 4 modes): '
         'automaton: must not raise; init[impl] must fix the memory, admit '
         'only states with (EnvInit => SysInit /\\ Win) (SysInit '
         'unconditionally if plus_one) and be non-empty in the quantifier '
-        'pattern of the form. non-trivial = some verdict of the game is '
+        'pattern of the form. For one combination of every other game (thorough: 4 of every game) with a non-empty region but a negative verdict the construction must be refused (raise). non-trivial = some verdict of the game is '
         'true and some false; distinct = game description')
 ASSUMPTIONS = ['dd trusted', 'reference region from arena/Zielonka',
                'library preconditions respected: SysInit=TRUE for \\A \\A, '
@@ -64,13 +64,15 @@ def run_case(case, acc):
     # every other game is examined in an automaton with a history (solved
     # before under another ownership and in the opposite mode)
     reuse = bool(int(stable_hash({k: v for k, v in case.items()
-                                  if k not in ('init', 'deep')})[:4], 16) % 2)
+                                  if k not in ('init', 'deep', 'refuse')})[:4],
+                     16) % 2)
     sy = synth.Synth(case, reuse=reuse)
     aut, gm = sy.aut, sy.gm
     W = sy.reference_region()
     combos = synth.init_combos(case)
     verdicts = []
     realizable = []
+    unrealizable = []
     for q, ei, si in combos:
         sy.set_init(q, ei, si)
         got = synth.is_realizable(sy.z, aut)
@@ -83,9 +85,35 @@ def run_case(case, acc):
                 qinit=q)
         elif got and W:
             realizable.append((q, ei, si))
+        elif not got and W:
+            unrealizable.append((q, ei, si))
     acc.ev(case, nontrivial=(True in verdicts and False in verdicts),
            n=len(combos))
-    if not realizable:
+    # refusal: with a non-empty winning region but a negative verdict the
+    # construction must not hand out an implementation
+    hh = int(stable_hash({k: v for k, v in case.items()
+                          if k not in ('init', 'refuse')})[:8], 16)
+    if case.get('refuse'):
+        chosen = [tuple(_tupled(case['refuse']))]
+    elif case.get('init') or not unrealizable or (
+            not case.get('deep') and hh // 7 % 2):
+        chosen = []      # quick: every other game
+    else:
+        k = len(unrealizable)
+        chosen = [unrealizable[(hh + i * max(1, k // 4)) % k]
+                  for i in range(min(4 if case.get('deep') else 1, k))]
+    for q, ei, si in chosen:
+        s2 = synth.Synth(case, q, ei, si, reuse=reuse)
+        acc.count('refusals_checked')
+        try:
+            synth.make_transducer(s2.aut, s2.iterates, rabin)
+        except Exception:  # noqa
+            continue
+        acc.violation('constructed_although_unrealizable',
+                      dict(case, refuse=[q, ei, si]),
+                      detail=dict(qinit=q, env_init=ei, sys_init=si,
+                                  vars=gm.svars, W=sorted(W)), qinit=q)
+    if not realizable or case.get('refuse'):
         return
     if case.get('init'):
         # replay of one recorded construction
